@@ -359,6 +359,49 @@ var signatureTable = map[string]func(a aux) bool{
 		return a["recv"] == "go-named-map" || a["kind"] == "go-named-map" || a["bridged"] == "nmap" || a["subject"] == "go-named-map" ||
 			strings.Contains(a["src"], bridgedName("nmap"))
 	},
+
+	// NEW (C02-json-revive-depth.diff): the reviver makes the structure cyclic /
+	// deeper while builtinJSONReviveWalk recurses.
+	"c02-json-revive-recursion": func(a aux) bool {
+		return strings.HasPrefix(a["walker"], "parse-reviver") && a["phase"] == "fatal" && a["class"] == "stack-overflow" && a["limit"] == "64" &&
+			in(a["site"], "builtinJSONReviveWalk", "objectGet", "(*object).get", "objectGetProperty", "objectGetOwnProperty", "isArray", "objectLength", "(*object).enumerate", "objectEnumerate") &&
+			in(a["mutation"], "self-cycle", "sibling-cycle", "sibling-root", "push-self", "next-sibling-self", "deepen", "deepen-sibling", "return-this", "return-root", "return-fresh-nested", "proto-cycle-attempt")
+	},
+
+	// NEW (C02-call-parameter-string-repr.diff): raw string payload handed to reflect.
+	"c02-go-string-sink-repr": func(a aux) bool {
+		if a["class"] != "string" || !in(a["site"], "(*runtime).toValue.func1", "(*runtime).convertCallParameter", "(*runtime).convertCallParameter.func1", "goStructObject.setValue") {
+			return false
+		}
+		p := a["panic"]
+		if !strings.Contains(p, "reflect") {
+			return false
+		}
+		u16 := strings.Contains(p, "[]uint16 as type") || strings.Contains(p, "type []uint16 is not assignable to type") ||
+			strings.Contains(p, "*[]uint16 as type *") || strings.Contains(p, "type *[]uint16 is not assignable to type *") || strings.Contains(p, "cannot use []uint16 as type")
+		named := strings.Contains(p, "using string as type c02.NamedKey") || strings.Contains(p, "type string is not assignable to type c02.NamedKey")
+		if u16 {
+			return strings.HasPrefix(a["source"], "u16-") || usesU16(a) || strings.Contains(a["src"], "fromCharCode")
+		}
+		return named && a["source"] != ""
+	},
+
+	// NEW (C02-clone-eval-binding.diff)
+	"c02-clone-eval-binding": func(a aux) bool {
+		return a["target"] == "this.eval" && a["action"] == "Copy" && a["class"] == "interface-conversion" && a["site"] == "(*runtime).clone" &&
+			(strings.Contains(a["panic"], "not *otto.object") || strings.Contains(a["panic"], "not otto.Value"))
+	},
+
+	// NEW (C02-gomap-define-valueless.diff)
+	"c02-gomap-define-valueless": func(a aux) bool {
+		return in(a["receiver"], "go-map", "go-named-map") && a["payload"] == "none" && a["attrs"] == "w1e1c1" && a["class"] == "interface-conversion" &&
+			a["site"] == "goMapDefineOwnProperty" && strings.Contains(a["panic"], "is nil, not otto.Value")
+	},
+
+	// NEW (C02-context-throwing-getter.diff)
+	"c02-context-throwing-getter": func(a aux) bool {
+		return a["action"] == "Context" && a["mutation"] == "accessor-throws" && strings.HasPrefix(a["target"], "this.") && a["class"] == "*otto.exception"
+	},
 }
 
 // usesU16 reports whether the case involves one of the []uint16-backed string kinds.
